@@ -271,7 +271,13 @@ def r3(R3, cfg, F):
             if key in seen_src:
                 continue
             seen_src.add(key)
-            pt = common.make_pt(r'HashSet::<T, S, A>::iter$', r'IntoIterator.*::into_iter$', r'Iterator>::next$')
+            _pt0 = common.make_pt(r'HashSet::<T, S, A>::iter$', r'IntoIterator.*::into_iter$', r'Iterator>::next$')
+
+            def pt(site):
+                # (the sort result's own into_iter -- inherent, or an IntoIterator impl -- is where the slice stops)
+                if site.callee and site.callee.best == D + 'TopologicalSort::into_iter':
+                    return None
+                return _pt0(site)
             ok = (ru.dominates(cl[0].bb, ts[0].bb) if taken else ru.dominates(ts[0].bb, cl[0].bb)) and ru.dominates(cl[0].bb, it[0].bb) \
                 and common.deep_path(ru, it[0].args[0]) == ['call@bb%d' % ts[0].bb]
             # the set cleared is the set sorted from (the change set), the graph sorted is the graph reloaded
